@@ -390,34 +390,32 @@ def run_threads(case) -> dict:
     """["threads", seed, n_threads, policy]: caller threads of one process encode and decode at the same time (each of them would be
     inside its own RPC conversation); simworld.threads decides every pre-emption at line events inside dpapi_ng.  Every result
     must equal what the same computation gives when nothing else runs."""
-    from simworld import threads as simthreads
-    from checks import plan as P
+    from checks import threadpure
 
     _, seed, n_threads, policy = case
     r = random.Random(seed)
     jobs = [[(r.choice(("cat", "cat", "lib", "lib", "vt", "epm", "ctx")), r.randrange(600)) for _ in range(r.randint(3, 10))] for _ in range(n_threads)]
-    alone = [[_codec_job(j) for j in js] for js in jobs]
-    tsim = simthreads.ThreadSim(random.Random(seed ^ 0xC12), P.SRC_PREFIX(), policy)
-    try:
-        res = tsim.run([(lambda js=js: [_codec_job(j) for j in js]) for js in jobs])
-    except simthreads.Wedged as e:
-        raise common.HarnessError(str(e))
+    return threadpure.run("C12", "codec", case, jobs, _codec_job, seed, policy)
+
+
+def run_scale(case) -> dict:
+    """["scale", shape, k]: a structured hostile ept_map result (checks.epmstub) of a size proportional to k is decoded; the traced
+    lines must stay within 20000 + 30*len (the unchanged decoder needs < 3 lines per byte on these shapes)."""
+    import dpapi_ng._epm as epm
+
+    from checks import epmstub
+
+    _, shape, k = case
+    data = epmstub.SHAPES[shape](k)
+    limit = 20_000 + 30 * len(data)
+    with common.LineBudget(limit) as lb:
+        out = drive.classify(lambda: epm.EptMapResult.unpack(data))
     viol = None
-    for ti, ((got, exc), want) in enumerate(zip(res, alone)):
-        if exc is not None:
-            viol = common.violation("C12", "codec", "threads", type(exc).__name__, common.innermost_repo_frame(exc) if isinstance(exc, Exception) else "", "",
-                                    f"thread {ti}: a codec call that succeeds alone raised {exc!r} while other threads were encoding/decoding; jobs={jobs[ti]}")
-            break
-        bad = [j for j, a, b_ in zip(jobs[ti], got, want) if a != b_]
-        if bad:
-            viol = common.violation("C12", "codec", "threads", "result-depends-on-other-threads", bad[0][0], "",
-                                    f"thread {ti}: {bad[0]} gives other bytes / field values when other threads encode or decode at the same time "
-                                    f"({len(tsim.switches)} pre-emptions); schedule={tsim.script()['switches'][:6]}")
-            break
-    dig = hashlib.sha256(repr((res, tsim.switches)).encode()).hexdigest()
-    return {"viol": viol, "digest": dig, "key": common.key_hash(case), "sched_key": common.key_hash(tsim.switches) if tsim.switches else None,
-            "fired": {"thread_preemptions": len(tsim.switches)}, "probes": {"thread_cases": 1, "thread_overlap": tsim.overlap}, "vtime_ns": 0,
-            "_script": tsim.script()}
+    if out.kind == "budget":
+        viol = common.violation("C12", "termination", "decoder", "budget", drive.exc_sig(out)[1], "structured-" + shape,
+                                f"EptMapResult.unpack of a {len(data)}-byte stub ({shape}, k={k}) used more than {limit} traced lines: work is not proportional to the length")
+    return {"viol": viol, "digest": out.brief() + str(lb.count if out.kind != "budget" else -1), "key": common.key_hash(case), "fired": {"structured_stub": 1},
+            "probes": {"scale_cases": 1, "scale_lines_per_byte_x10": 0}, "vtime_ns": 0}
 
 
 def run_types(case) -> dict:
@@ -591,13 +589,14 @@ class C12(common.Check):
             "flags, minor version, call ids) sent to the client. (tear) one message of a full "
             "EPM+GKDI conversation is garbled in flight (towards LibDC or towards the client: truncation with consistent frag_len, bit flips, "
             "NDR count rewrites up to 2^64-1, growth) under a traced-line budget; (threads) 2..4 caller threads of one process run codec "
-            "computations at the same time, pre-empted at PRNG-chosen line events inside dpapi_ng, and every result must equal the one computed alone. Non-trivial = every case; distinct = distinct tuple.")
+            "computations at the same time, pre-empted at PRNG-chosen line events inside dpapi_ng, and every result must equal the one computed alone; (scale) structured hostile ept_map results (many towers with tiny declared lengths and "
+            "floor counts reaching to the end of the stub) of growing size under a budget of 20000 + 30*len traced lines. Non-trivial = every case; distinct = distinct tuple.")
     components = {"client": "real (all client-direction codecs, RpcClient)", "LibDC": "real codecs in the server role (Bind/AlterContext/Request/"
                   "VerificationTrailer/EptMap/GetKey decode, BindAck/AlterContextResponse/Response/Fault/BindNak/EptMapResult/GroupKeyEnvelope encode)",
                   "reference server / monitor": "model (ref.rpce)", "security context": "stub", "transport": "simulated, with in-flight adversary"}
     assumptions = ["decode(encode(x)) = x is claimed only for messages that cross the wire between the three parties (values no party sends are outside the technique)",
                    "NDR referent ids are free: NDR64 stubs are compared through the independent decoder"]
-    required_fired = ("codec_lib", "codec_ref", "reqtear", "replytear", "tear_vt", "libenc", "libenc_drep_be", "thread_cases", "thread_overlap") + tuple("tower_len_mod8_%d" % i for i in range(8)) + tuple("vt_kind_%d" % i for i in range(9))
+    required_fired = ("codec_lib", "codec_ref", "reqtear", "replytear", "tear_vt", "libenc", "libenc_drep_be", "thread_cases", "thread_overlap", "scale_cases") + tuple("tower_len_mod8_%d" % i for i in range(8)) + tuple("vt_kind_%d" % i for i in range(9))
 
     def cases(self, tier, seed):
         out = []
@@ -627,6 +626,11 @@ class C12(common.Check):
         for k in range(0, 300 if tier == "quick" else 20000):
             pol = {"mode": "prob", "p": (0.01, 0.1, 0.4)[k % 3]} if k % 2 else {"mode": "points", "n": 1 + k % 5, "horizon": (200, 2000)[(k // 2) % 2]}
             out.append(["threads", rng.getrandbits(30), 2 + k % 3, pol])
+        from checks import epmstub
+
+        for shape in epmstub.SHAPES:
+            for k in (1, 2, 4, 8, 16) + ((32, 48) if tier == "thorough" else ()):
+                out.append(["scale", shape, k])
         n_tear = 1500 if tier == "quick" else 80000
         for i in range(n_tear):
             out.append(["tear", "to-libdc" if i % 2 else "to-client", rng.choice(("sync", "async")), rng.choice(("epm", "gkdi", "vt") if i % 2 else ("epm", "gkdi")), rng.getrandbits(30)])
@@ -634,7 +638,7 @@ class C12(common.Check):
 
     def run_case(self, case):
         try:
-            return {"conv": run_conv, "epm": run_epm, "types": run_types, "tear": run_tear, "libenc": run_libenc, "threads": run_threads}[case[0]](case)
+            return {"conv": run_conv, "epm": run_epm, "types": run_types, "tear": run_tear, "libenc": run_libenc, "threads": run_threads, "scale": run_scale}[case[0]](case)
         except wiremon.MonitorHarnessError as e:
             raise common.HarnessError(str(e))
 
@@ -644,7 +648,7 @@ class C12(common.Check):
             k = (c[0], c[1], c[2]) if c[0] in ("tear", "conv", "epm") else (c[0],)
             if c[0] == "tear":
                 k = k + (c[3],)
-            if k not in seen and c[0] != "threads":
+            if k not in seen and c[0] not in ("threads", "scale"):
                 seen.add(k)
                 try:
                     self.run_case(c)
@@ -663,24 +667,15 @@ class C12(common.Check):
             for k in range(case[3]):
                 yield case[:3] + [k] + case[4:]
         elif case[0] == "threads":
-            pol = case[3]
-            if pol.get("mode") != "script":
-                yield case[:3] + [run_threads(case)["_script"]]
-            else:
-                sw = pol["switches"]
-                if len(sw) > 2:
-                    yield case[:3] + [dict(pol, switches=sw[: len(sw) // 2])]
-                    yield case[:3] + [dict(pol, switches=sw[len(sw) // 2 :])]
-                for k in range(min(len(sw), 40)):
-                    yield case[:3] + [dict(pol, switches=sw[:k] + sw[k + 1 :])]
-            if case[2] > 2:
-                yield case[:2] + [2] + case[3:]
+            from checks import threadpure
+
+            yield from threadpure.shrinks(case, 3, 2, run_threads)
 
     def sample_repr(self, case, res):
         names = {"conv": ("kind", "codec", "flavour", "n_contexts", "n_transfer_syntaxes", "sec_addr_len", "token_size", "stub_len", "vt_variant", "reply_len"),
                  "epm": ("kind", "codec", "flavour", "tower_variant", "status"), "types": ("kind", "flavour", "pdu_variant"),
                  "tear": ("kind", "direction", "flavour", "conversation", "seed"), "libenc": ("kind", "flavour", "variant"),
-                 "threads": ("kind", "seed", "n_threads", "policy")}[case[0]]
+                 "threads": ("kind", "seed", "n_threads", "policy"), "scale": ("kind", "shape", "k")}[case[0]]
         return dict(zip(names, case))
 
 
